@@ -31,7 +31,7 @@ META = {
 ONCE_INV = ["TypeOK", "OnceOnly", "ExactlyOnce", "SameResult", "WaitsOnlyOnSameKey", "IndependentKeys",
             "TokenConservation", "ClosedImpliesCached", "OneLoaderPerKey", "LoaderKeyOK"]
 ONCE_PROP = ["MapStable", "Termination", "EveryGetReturns", "AbsSpec"]
-SEMA_INV = ["TypeOK", "HoldersBound", "CancelWhenFull", "BlocksWhenFull", "ReleaseNeverBlocks", "ZeroCapacity"]
+SEMA_INV = ["TypeOK", "HoldersBound", "CancelWhenFull", "BlocksWhenFull", "ReleaseNeverBlocks", "ZeroCapacity", "ReturnsCtxErr"]
 SEMA_PROP = ["ErrOnlyWhenDone", "OkTakesSlot", "DoneReturns"]
 KEYS = '{"a", "b"}'
 
@@ -124,6 +124,9 @@ def run(ctx):
         "instantiations OnceConstructor[string,*int], [string,error], [string,any], [int,*int]; the constructor returns a fresh "
         "distinguishable value per call, or the zero value of V (nil pointer / nil interface) for the keys in the model's zero-key set",
         "gates: syncutil.VerifGate points once.miss / once.stored (build tag verif) and the constructor; no gate between Load hit and the loader call",
+        "context kinds: WithCancel, WithDeadline/custom DeadlineExceeded, custom context with its own error, WithCancelCause, "
+        "WithTimeoutCause / WithDeadlineCause (expired, self-expiring in the stress, or ended through a cause-cancelled parent), "
+        "context.AfterFunc-decorated, nested child of a cause-cancelled parent; Acquire must return ctx.Err() itself, never context.Cause",
         "Release is not tied to a holder in the model; with capacity 0 a Release may hand over to a blocked Acquire (unbuffered channel)",
     ]
     par = max(2, NCPU // 4)
@@ -163,13 +166,20 @@ def run(ctx):
         job("OnceMC", "OnceMC3b_run.cfg", "once-mc 3 procs x 2 Gets (safety)", timeout=1500, workers=8)
     for n in (0, 1, 2):
         write_cfg(d / ("SemaMC%d_run.cfg" % n), "FairSpec",
-                  {"Procs": "{1, 2, 3}", "N": n, "MaxCalls": 2 if q else 3, "MaxRel": 3 if q else 4},
+                  {"Procs": "{1, 2, 3}", "N": n, "MaxCalls": 2 if q else 3, "MaxRel": 3 if q else 4,
+                   "Kinds": '{"cancelcause"}'},
                   invariants=SEMA_INV, properties=SEMA_PROP)
         job("Semaphore", "SemaMC%d_run.cfg" % n, "sema-mc n=%d" % n)
+    # every kind of context (plain, with a cause, expired, decorated, nested, custom): the error is ctx.Err()
+    write_cfg(d / "SemaKindsMC_run.cfg", "FairSpec", {"Procs": "{1, 2}", "N": 1, "MaxCalls": 1 if q else 2, "MaxRel": 1 if q else 2,
+                                                      "Kinds": "<- AllKinds"},
+              invariants=["TypeOK", "HoldersBound", "CancelWhenFull", "ReturnsCtxErr"], properties=["ErrOnlyWhenDone", "DoneReturns"])
+    job("Semaphore", "SemaKindsMC_run.cfg", "sema-mc context kinds")
     # contention scenario: K > N acquirers, barrier, cancel all, no Release
     for n, procs in ((1, "{1, 2, 3}"), (2, "{1, 2, 3, 4}"), (3, "{1, 2, 3, 4}" if q else "{1, 2, 3, 4, 5}")):
-        write_cfg(d / ("SemaContend%d_run.cfg" % n), "CSpec", {"Procs": procs, "N": n, "MaxCalls": 1, "MaxRel": 0},
-                  invariants=["TypeOK", "HoldersBound", "CancelWhenFull", "SettledFull", "LosersGetErr"],
+        write_cfg(d / ("SemaContend%d_run.cfg" % n), "CSpec", {"Procs": procs, "N": n, "MaxCalls": 1, "MaxRel": 0,
+                                                                 "Kinds": '{"cancelcause", "nested", "sentinel"}'},
+                  invariants=["TypeOK", "HoldersBound", "CancelWhenFull", "SettledFull", "LosersGetErr", "ReturnsCtxErr"],
                   properties=["EveryoneReturns", "ErrOnlyWhenDone"])
         job("SemaContend", "SemaContend%d_run.cfg" % n, "sema-contend n=%d" % n, workers=2)
     write_cfg(d / "PoolMC_run.cfg", "Spec", {"Procs": "{1, 2, 3}", "MaxObjs": 3, "MaxOps": 7 if q else 9},
@@ -203,7 +213,7 @@ def run(ctx):
     depth = 5 if q else 7
     for n in (0, 1, 2):
         write_cfg(d / ("SemaGen%d_run.cfg" % n), "GSpec",
-                  {"Procs": "{1, 2, 3}", "N": n, "MaxCalls": 3, "MaxRel": 1000, "Depth": depth, "MaxDone": 2,
+                  {"Procs": "{1, 2, 3}", "N": n, "MaxCalls": 3, "MaxRel": 1000, "Depth": depth, "MaxDone": 2, "Kinds": "<- AllKinds",
                    "OutFile": '"sema_sched_%d.ndjson"' % n}, invariants=["Emit", "GenOK"])
         job("SemaphoreGen", "SemaGen%d_run.cfg" % n, "sema-gen n=%d depth %d" % (n, depth), timeout=1500,
             workers=w if q else 8)
@@ -304,7 +314,8 @@ def run(ctx):
             tf = "sema_trace_%d_%d.ndjson" % (n, i)
             trace(["c17", "stress-sema", d / tf, ctx.scratch / ("ss%d_%d.res" % (n, i)), n, 3 if q else 4, 8, 40], tf,
                   "ss%d_%d.res" % (n, i), "SemaLinTrace", "SemaTrace%d_%d_run.cfg" % (n, i),
-                  {"Procs": "<- TraceProcs", "N": n, "MaxCalls": 1000000, "MaxRel": 1000000, "TraceFile": '"%s"' % tf},
+                  {"Procs": "<- TraceProcs", "N": n, "MaxCalls": 1000000, "MaxRel": 1000000, "Kinds": "<- AllKinds",
+                   "TraceFile": '"%s"' % tf},
                   ["BoundT"], "ChanSemaphore stress log (capacity %d)" % n, True, i)
     trace(["c17", "stress-pool", d / "pool_trace.ndjson", ctx.scratch / "sp.res", 4 if q else 12], "pool_trace.ndjson", "sp.res",
           "PoolTrace", "PoolTrace_run.cfg",
